@@ -288,24 +288,31 @@ func PublishMetadataSnapshot(ctx context.Context, endpoints []string, snapshot m
 	return lastErr
 }
 
+// mergeSnapshots carries over what brokers have added to the existing snapshot
+// and the rendered resources do not know about: topics without a resource, and
+// partitions beyond a resource's count (a broker may have acknowledged a
+// CreatePartitions; partition counts never shrink).
 func mergeSnapshots(next, existing metadata.ClusterMetadata) metadata.ClusterMetadata {
 	if len(existing.Topics) == 0 {
 		return next
 	}
-	seen := make(map[string]struct{}, len(next.Topics))
-	for _, topic := range next.Topics {
+	seen := make(map[string]int, len(next.Topics))
+	for i, topic := range next.Topics {
 		name := *topic.Topic
 		if name == "" {
 			continue
 		}
-		seen[name] = struct{}{}
+		seen[name] = i
 	}
 	for _, topic := range existing.Topics {
 		name := *topic.Topic
 		if name == "" || topic.ErrorCode != 0 {
 			continue
 		}
-		if _, ok := seen[name]; ok {
+		if i, ok := seen[name]; ok {
+			if have := len(next.Topics[i].Partitions); len(topic.Partitions) > have {
+				next.Topics[i].Partitions = append(next.Topics[i].Partitions, topic.Partitions[have:]...)
+			}
 			continue
 		}
 		next.Topics = append(next.Topics, topic)
